@@ -22,7 +22,7 @@ ASSUMPTIONS = [
     "tzstr's ValueError; exceptions of a user callable are the user's) — outside the property's domain, modelled anyway",
     "undecodable bytes (UnicodeDecodeError) are not text; MemoryError/RecursionError are not modelled",
 ]
-RULE = ("malformed stream: random concatenations of date-like words, digit runs of length 1..40 (and 27..31 / 4300-digit runs), "
+RULE = ("aliasing family (texts whose scan writes into the token list: HH:MM NAME+-N / NAME+-HHMM / +-HHMM (NAME), with and without spaces, in fuzzy sentences, random upper-case names <= 5 letters): each parsed 3x in a row as the same str object, as an equal-but-distinct object, after 3 and after 700 unrelated calls, every answer compared with the first and with the model; same text twice in a row over a slice of every family; malformed stream: random concatenations of date-like words, digit runs of length 1..40 (and 27..31 / 4300-digit runs), "
         "separators, signs, Unicode decimal digits / non-decimal digits / letters / spaces / others, NUL, inf/nan words; 1-3 "
         "character edits of valid renderings of 44 templates; valid renderings inside garbage; x dayfirst/yearfirst in "
         "{None,True,False} x fuzzy x fuzzy_with_tokens x ignoretz x 12 tzinfos forms x 10 defaults x {DEFAULTPARSER, 3 stock "
@@ -64,6 +64,65 @@ def gen_calls(ctx, rng, n):
     return calls
 
 
+ZN = ["GMT", "UTC", "Z", "EST", "EDT", "BST", "BRST", "CET", "ABCDE", "A", "MSK", "IST", "JST", "XY"]
+
+
+def alias_family(rng, n):
+    """texts around every write into the token list: `HH:MM NAME+N`, `NAME-N`, `NAME+HHMM`, `NAME+HH:MM`, `±HHMM (NAME)`, with and
+    without spaces, inside fuzzy sentences, random upper-case names of up to 5 letters; plus fixed witnesses"""
+    out = []
+    def name():
+        return rng.choice(ZN) if rng.random() < 0.7 else "".join(rng.choice("ABCDEFGHIJKLMNOPQRSTUVWXYZ") for _ in range(rng.randint(1, 5)))
+    def tm():
+        r = rng.random()
+        h, mi, s = rng.randint(0, 23), rng.randint(0, 59), rng.randint(0, 59)
+        if r < 0.4:
+            return "%02d:%02d" % (h, mi)
+        if r < 0.6:
+            return "%02d:%02d:%02d" % (h, mi, s)
+        if r < 0.75:
+            return "2003-09-25T%02d:%02d:%02d" % (h, mi, s)
+        if r < 0.85:
+            return "%d %s" % ((h % 12) or 12, "AM" if h < 12 else "PM")
+        return "Sep 25 2003 %02d:%02d" % (h, mi)
+    def off():
+        r = rng.random()
+        sg = rng.choice("+-")
+        if r < 0.35:
+            return "%s%d" % (sg, rng.randint(0, 14))
+        if r < 0.55:
+            return "%s%02d" % (sg, rng.randint(0, 23))
+        if r < 0.8:
+            return "%s%02d%02d" % (sg, rng.randint(0, 23), rng.choice([0, 30, 45, 59]))
+        return "%s%02d:%02d" % (sg, rng.randint(0, 23), rng.choice([0, 30, 59]))
+    for t in ["10:00 GMT+3", "10:00 GMT-3", "10:00 UTC+01:30", "10:00 BRST+3", "10:00 EST-5", "10:00GMT+3", "10:00 GMT +3",
+              "10:00 GMT+0300", "10:00 -0300 (BRST)", "10:00 +0100 (GMT)", "10:00 Z+1", "Today 10:00 GMT+3 ok", "10:00 GMT+", "10:00 GMT-",
+              "10:00 GMT+3 GMT+3", "GMT+3 10:00", "10:00 ABCDE-7", "10:00 ABCDEF-7", "10:00 gmt+3"]:
+        for fz in (False, True):
+            out.append(L.Call(t, fuzzy=fz, fwt=fz and rng.random() < 0.5, tag="alias-seed"))
+    while len(out) < n:
+        k = rng.randint(0, 6)
+        sp1 = rng.choice([" ", " ", "", "  "])
+        sp2 = rng.choice(["", "", " "])
+        if k <= 2:
+            t = tm() + sp1 + name() + sp2 + off()
+        elif k == 3:
+            t = tm() + " " + off() + " (" + name() + ")"
+        elif k == 4:
+            t = tm() + sp1 + name() + sp2 + off() + " " + rng.choice(["", "(" + name() + ")", name() + off()])
+        elif k == 5:
+            t = " ".join([rng.choice(G.FILLER), tm() + sp1 + name() + sp2 + off(), rng.choice(G.FILLER)])
+        else:
+            t = G.edit(rng, tm() + " " + name() + off())
+        fz = (k == 5) or rng.random() < 0.25
+        c = G.options(rng, t, allow_custom=rng.random() < 0.15)
+        c.fuzzy, c.fwt = fz, fz and rng.random() < 0.4
+        c.via = "str"
+        c.tag = "alias"
+        out.append(c)
+    return out
+
+
 def correspondence(ctx):
     basecorr.run(ctx)
     # --- assumption audit over all code points
@@ -85,6 +144,21 @@ def correspondence(ctx):
         ctx.note("AST audit: anchored source differs from the committed site table -> thorough budget; new/changed: %s; removed: %s; "
                  "missing functions: %s; unmapped functions: %s" % (new[:12], gone[:12], missing, extra))
         ctx.count("ast_sites_new_or_changed", len(new) + len(gone) + len(missing) + len(extra))
+    # --- writes into argument-derived structures (where aliasing could leak state between calls)
+    msites = L.ast_mutation_sites(os.environ.get("DATEUTIL_REPO", "/repo"))
+    try:
+        mcommitted = json.load(open(os.path.join(os.path.dirname(SITES_FILE), "c14_mutation_sites.json")))
+    except Exception:
+        mcommitted = {}
+    mnew = sorted(k for k in msites if msites[k] != mcommitted.get(k))
+    token_list_writes = sorted(k for k in msites if ":subscript-store:l[" in k or ":subscript-store:tokens[" in k
+                               or ":method:l." in k or ":method:tokens." in k)
+    ctx.hist["token_list_write_sites"] = "; ".join(token_list_writes)
+    ctx.count("mutation_sites_total", sum(msites.values()))
+    if mnew:
+        ctx.escalated = True
+        ctx.note("mutation audit: new/changed write or class-level mutable state in the anchored code -> thorough budget: %s" % mnew[:10])
+        ctx.count("mutation_sites_new_or_changed", len(mnew))
     # --- lexer alone
     rng = ctx.subrng("lex")
     from dateutil.parser import _parser
@@ -156,6 +230,21 @@ def oracle(ctx):
         for tzenv in ["UTC", "America/New_York"]:
             L.set_tz(tzenv)
             calls = seeds + gen_calls(ctx, rng, ctx.budget(30000, 200000))
+            # slices of the other checks' generator families (valid renderings x offsets; partial texts x zone texts)
+            from props import c15 as _c15
+            for _ in range(ctx.budget(2500, 20000)):
+                t = rng.choice(G.TEMPLATES)
+                txt = G.render(t, G.boundary_dt(rng), rng.choice(G.OFFSETS) if t['time'] else None)
+                calls.append(L.Call(txt, default=rng.choice(G.DEFAULTS), dayfirst=t['flags'].get('dayfirst'),
+                                    yearfirst=t['flags'].get('yearfirst'), tag="template"))
+            for _ in range(ctx.budget(2500, 20000)):
+                ptxt, fields, _wd = _c15.partial(rng)
+                z = rng.choice(_c15.ZONES)[0] if 'hour' in fields else ''
+                if rng.random() < 0.3:
+                    z = rng.choice(G.TZ_TEXT)
+                c = G.options(rng, ptxt + z, allow_custom=False)
+                c.tag = "partial"
+                calls.append(c)
             first = []
             for c in calls:
                 ans, dt, raw = L.run_impl(c, raw=True)
@@ -180,6 +269,16 @@ def oracle(ctx):
                 if not ok:
                     ctx.violation("parse() outcome outside {datetime, (datetime, tuple), ParserError, OverflowError}: %s" % ans[:80],
                                   c.describe(), {"impl": ans})
+            # "same text twice": the second call of a slice of every generator family, right after the first
+            imm = [(j, c) for j, c in enumerate(calls) if c.via != "stream"]
+            for j, c in rng.sample(imm, min(len(imm), ctx.budget(8000, 60000))):
+                a1, _, _ = L.run_impl(c)
+                a2, _, _ = L.run_impl(c)
+                ctx.evaluations += 2
+                ctx.count("same_text_twice")
+                if a1 != a2 or a1 != first[j]:
+                    ctx.violation("parse() is not a function of its arguments: the same call twice in a row differs", c.describe(),
+                                  {"first": first[j], "again": a1, "again2": a2})
             # determinism + no state left behind: same calls again, immediately and in a shuffled interleaving
             order = list(range(len(calls)))
             rng.shuffle(order)
@@ -193,6 +292,39 @@ def oracle(ctx):
                         if ans != first[j]:
                             ctx.violation("parse() is not a function of its arguments: %s call differs" % rnd, c.describe(),
                                           {"first": first[j], "again": ans})
+        # ---- the aliasing family: texts whose parse WRITES into the token list (`l[i+1] = …`, the GMT+3 sign flip) and
+        #      their neighbours; each is parsed 3x in a row with the SAME str object, with an equal-but-distinct object, after
+        #      a few and after many unrelated calls; every answer must equal the first and the model's
+        for tzenv in ["UTC", "Europe/London"]:
+            L.set_tz(tzenv)
+            fam = alias_family(rng, ctx.budget(1500, 12000))
+            model = L.model_answers(ctx, fam)
+            unrelated = [G.options(rng, G.malformed(rng), allow_custom=False) for _ in range(700)]
+            pending = []
+            for c, m in zip(fam, model):
+                answers = []
+                for _ in range(3):
+                    answers.append(L.run_impl(c)[0])                      # same str object
+                c2 = L.call_from_case(c.describe()); c2.text = "".join(list(c.text))     # equal but distinct object
+                answers.append(L.run_impl(c2)[0])
+                for u in rng.sample(unrelated, 3):
+                    L.run_impl(u)
+                answers.append(L.run_impl(c)[0])
+                pending.append((c, m, answers[0]))
+                ctx.case(("alias", c.key()), nontrivial=answers[0].startswith("ok "))
+                ctx.count("alias_family_texts")
+                ctx.evaluations += len(answers) - 1
+                if any(a != answers[0] for a in answers) or answers[0] != m:
+                    ctx.violation("parse() is not a function of its arguments: repeated parse of a text whose scan rewrites a token",
+                                  c.describe(), {"answers": answers, "model": m})
+            for u in unrelated:                                            # more than any small cache holds
+                L.run_impl(u)
+            for c, m, a0 in pending:
+                a = L.run_impl(c)[0]
+                ctx.evaluations += 1
+                if a != a0:
+                    ctx.violation("parse() is not a function of its arguments: parse after many unrelated calls differs",
+                                  c.describe(), {"first": a0, "later": a, "model": m})
         L.set_tz("UTC")
         # non-text input
         for x in NON_TEXT:
